@@ -1,4 +1,5 @@
 import TV.Properties.C10
+import TV.ShapeOK.Publisher
 #print axioms TV.C10.C10_no_panic
 #print axioms TV.C10.C10_closed_once
 #print axioms TV.C10.C10_close_completes
@@ -6,3 +7,5 @@ import TV.Properties.C10
 #print axioms TV.C10.C10_nothing_after_close
 #print axioms TV.C10.C10_others_unaffected
 #print axioms TV.C10.pinned_C10_send_on_closed
+#print axioms TV.ShapeOK.Publisher.discipline
+#print axioms TV.ShapeOK.Publisher.sites_present
